@@ -13,6 +13,7 @@ fn main() {
         "hll-record" => vh::fam_hll::record(&args),
         "theta-record" => vh::fam_theta::record(&args),
         "fi-record" => vh::fam_fi::record(&args),
+        "cm-record" => vh::fam_cm::record(&args),
         "hllu-record" => vh::fam_hll::record_union(&args),
         c => {
             eprintln!("unknown command {c}");
